@@ -388,7 +388,33 @@ def call_method(I, recv, name, args, kwargs):
             y, m, d = ymd(I, recv)
             jan1 = Sym(INT, ord_term(I, T(I, y), z3.IntVal(1), z3.IntVal(1)))
             return TimeTuple(simp_int(I.binop(ast.Add, I.binop(ast.Sub, recv.ord, jan1), 1)))
-        if name in ('strftime', 'isoformat', 'timestamp', 'astimezone', 'utcoffset'):
+        if name == 'strftime':
+            fmt = I.resolve(args[0])
+            if not isinstance(fmt, str):
+                raise Unsupported('strftime with symbolic format')
+            # glibc semantics as CPython on Linux exposes them: %Y is NOT zero padded, %m %d %H %M %S are 2 digits
+            y, m, d = ymd(I, recv)
+            vals = {'Y': (y, None), 'm': (m, 2), 'd': (d, 2), 'H': (get_attribute(I, recv, 'hour'), 2),
+                    'M': (get_attribute(I, recv, 'minute'), 2), 'S': (get_attribute(I, recv, 'second'), 2)}
+            parts = []
+            i = 0
+            while i < len(fmt):
+                c = fmt[i]
+                if c == '%' and i + 1 < len(fmt):
+                    k = fmt[i + 1]
+                    if k == '%':
+                        parts.append('%')
+                    elif k in vals:
+                        v, w = vals[k]
+                        parts.append(L.to_str(I, v) if w is None else L.format_int_0w(I, v, w))
+                    else:
+                        raise Unsupported('strftime directive %' + k)
+                    i += 2
+                else:
+                    parts.append(c)
+                    i += 1
+            return L.concat_strs(I, parts)
+        if name in ('isoformat', 'timestamp', 'astimezone', 'utcoffset'):
             raise Unsupported('datetime.' + name)
     if isinstance(recv, STimedelta):
         if name == 'total_seconds':
